@@ -590,6 +590,8 @@ struct Spec {
     stall_ns: u32,
     /// the parent carries out its disposition when the k-th such stall has begun (0 = no rendezvous)
     stall_k: u8,
+    /// 1: the batch runs without the quarantine (freed blocks are reusable at once)
+    reuse: u8,
 }
 const SPEC_BYTES: usize = 32;
 
@@ -608,6 +610,7 @@ impl Spec {
             tag: u64::from_le_bytes([b[16], b[17], b[18], b[19], b[20], b[21], b[22], b[23]]),
             stall_ns: u32::from_le_bytes([b[24], b[25], b[26], b[27]]).min(2_000_000),
             stall_k: b[28],
+            reuse: b[29],
         }
     }
 }
@@ -1115,7 +1118,7 @@ pub fn main() -> i32 {
         if n == 0 || n > MAXN || len < 4 + n * SPEC_BYTES {
             return 7;
         }
-        let mut specs = [Spec { ty: 0, behave: 0, disp: 0, inline: 0, cdk: 0, pdk: 0, buflen: 0, cda: 0, pda: 0, tag: 0, stall_ns: 0, stall_k: 0 }; MAXN];
+        let mut specs = [Spec { ty: 0, behave: 0, disp: 0, inline: 0, cdk: 0, pdk: 0, buflen: 0, cda: 0, pda: 0, tag: 0, stall_ns: 0, stall_k: 0, reuse: 0 }; MAXN];
         for i in 0..n {
             specs[i] = Spec::parse(&inbuf[4 + i * SPEC_BYTES..4 + (i + 1) * SPEC_BYTES]);
         }
@@ -1146,7 +1149,7 @@ fn run_batch(specs: &[Spec], pipe: (usize, usize)) {
         (b.live_count, b.live_bytes)
     });
 
-    QUARANTINE_ON.store(1, SeqCst);
+    QUARANTINE_ON.store(if specs.iter().any(|s| s.reuse != 0) { 0 } else { 1 }, SeqCst);
     const NONE_H: Option<H> = None;
     let mut handles: [Option<H>; MAXN] = [NONE_H; MAXN];
     const PS0: PerSpec = PerSpec { spawn_errno: 0, join_class: 0, vhash: 0, vlen: 0, buf_join: 0, buf: 0, stall_obs: 0 };
